@@ -274,14 +274,16 @@ PROPS = {
     "C03": {
         "module": "MantraDex.Properties.C03", "ns": "MantraDex.C03",
         "theorems": ["cp_gross_formula", "cp_swap_k_mono", "performSwap_k_mono", "cp_round_trip_no_profit", "ss_swap_D_witness",
-                     "MantraDex.C03Sys.cp_value_per_lp_step", "MantraDex.C03Sys.cp_value_per_lp_reachable"],
-        "extra_modules": ["MantraDex.Properties.C03Sys"],
+                     "MantraDex.C03Sys.cp_value_per_lp_step", "MantraDex.C03Sys.cp_value_per_lp_reachable",
+                     "MantraDex.C03NoDrain.no_history_drains_pool", "MantraDex.C03NoDrain.not_both_down"],
+        "extra_modules": ["MantraDex.Properties.C03Sys", "MantraDex.Properties.C03NoDrain"],
         "streams": {"swapmath": (4000, 200000), "pm_hist": (120, 3000)},
         "what": "constant product: gross output = floor(Y*o/(X+o)); x*y never decreases through compute_swap / perform_swap for every reserve, "
                 "offer and fee setting incl. zero fees; a swap-and-swap-back round trip never returns more than was put in. THROUGH THE RUNTIME (C03Sys): for every "
                 "constant-product pool, across every whole transaction of any kind by any account (direct swaps, every hop of a route incl. routes visiting the pool several times, the "
                 "internal swap of a single-asset deposit, deposits, withdrawals, nested calls, rollbacks, faults) and hence every history, x*y/supply^2 never decreases and x*y never "
-                "decreases while the LP supply is unchanged - no sequence of transactions extracts value from the pool. Stableswap: the "
+                "decreases while the LP supply is unchanged - no sequence of transactions extracts value from the pool; in the form a user reads it (C03NoDrain.no_history_drains_pool): between any two "
+                "instants with the same LP supply, whatever anybody did in between, the pool has not lost one asset without gaining the other. Stableswap: the "
                 "statement is false for the code (F-03, output rounded up): ss_swap_D_witness proves the negation on a concrete input by kernel "
                 "evaluation; every observed swap is classified by the exact-invariant monitor (Spec/Invariant.lean)",
         "assumptions": ["stableswap half is NOT proved: known finding F-03 (KNOWN-FINDING line), monitor class C03-ss-rounding; anything beyond that class is a violation"],
